@@ -83,6 +83,12 @@ def exec_builder(cells, ops, builder=None):
                 b.store_address(mk_addr(p[1:]))
             elif k == 'sn':
                 b.store_snake_bytes(bytes.fromhex(p[1].replace('-', '')))
+            elif k == 'd':
+                b.store_dict(None if p[1] == '-' else cells[int(p[1])])
+            elif k == 's':
+                b.store_string(bytes.fromhex(p[1].replace('-', '')).decode())
+            elif k == 'sns':
+                b.store_snake_string(bytes.fromhex(p[1].replace('-', '')).decode(), p[2] == '1')
             else:
                 raise ValueError('unknown op ' + tok)
             flags += '1'
@@ -100,7 +106,10 @@ def exec_builder(cells, ops, builder=None):
 
 
 def exec_slice(cell, ops):
-    s = cell.begin_parse()
+    try:
+        s = cell.begin_parse()
+    except Exception:      # begin_parse itself raised: every read counts as an error (reported by the callers' oracles)
+        return ';'.join('x' for _ in ops) or '-', 'x', 'x'
     out = []
     for tok in ops:
         p = tok.split(':')
@@ -159,6 +168,18 @@ def exec_slice(cell, ops):
                 r = s.load_bytes(len(s.bits) // 8).hex() or '-'
             elif k == 'lsn':
                 r = s.load_snake_bytes().hex() or '-'
+            elif k == 'lss':
+                r = s.load_snake_string().encode().hex() or '-'
+            elif k in ('ld', 'pd'):
+                ro = s.ref_offset
+                x = s.load_dict(int(p[1])) if k == 'ld' else s.preload_dict(int(p[1]))
+                r = 'none' if x is None else s.refs[ro].hash.hex()
+                if x is not None and not isinstance(x, dict):
+                    r = 'notadict'
+            elif k == 'ls':
+                r = s.load_string(int(p[1])).encode().hex() or '-'
+            elif k == 'ps':
+                r = s.preload_string(int(p[1])).encode().hex() or '-'
             else:
                 raise ValueError('unknown op ' + tok)
         except ValueError as e:
@@ -209,6 +230,7 @@ def enc_addr(parts):
         return '00'
     if parts[0] == 'e':
         ln, v = int(parts[1]), int(parts[2])
+        assert ln or v == 0      # bits 0 holds only the empty string
         return '01' + enc_uint(ln, 9) + (enc_uint(v, ln) if ln else '')
     wc, h = int(parts[1]), bytes.fromhex(parts[2].replace('-', ''))
     s = '10'
@@ -250,7 +272,47 @@ def enc_tok(tok, cells):
         return '1', [cells[int(p[1])]], 'lmr', cells[int(p[1])].hash.hex(), 'pmr'
     if k == 'a':
         return enc_addr(p[1:]), [], 'la', ':'.join(p[1:]), 'pa'
+    if k == 'd':   # HashmapE = Maybe ^Cell
+        if p[1] == '-':
+            return '0', [], f'ld:{DICT_KEY_LEN}', 'none', f'pd:{DICT_KEY_LEN}'
+        return '1', [cells[int(p[1])]], f'ld:{DICT_KEY_LEN}', cells[int(p[1])].hash.hex(), f'pd:{DICT_KEY_LEN}'
+    if k == 's':   # store_string: the UTF-8 bytes, at most 127
+        by = bytes.fromhex(p[1].replace('-', ''))
+        assert len(by) <= 127
+        return G.bytes_to_bits(by), [], f'ls:{len(by)}', p[1], f'ps:{len(by)}'
     return None
+
+
+DICT_KEY_LEN = 8
+
+
+def cell_dag(cell):
+    """DAG nodes (child before parent, shared cells once) of a library cell tree; the root is the last node."""
+    nodes, index = [], {}
+
+    def walk(c):
+        if c.hash in index:
+            return index[c.hash]
+        kids = tuple(walk(r) for r in c.refs)
+        nodes.append((G.ORD, c.bits.to01(), kids))
+        index[c.hash] = len(nodes) - 1
+        return index[c.hash]
+    walk(cell)
+    return nodes
+
+
+def dict_dag(entries=((1, 5), (200, 7), (77, 1))):
+    """DAG nodes of a serialised HashMap(8) with the given int entries; the root is the last node."""
+    from pytoniq_core import begin_cell
+    from pytoniq_core.boc.hashmap.hashmap import HashMap
+    h = HashMap(DICT_KEY_LEN)
+    for k, v in entries:
+        h.set_int_key(k, begin_cell().store_uint(v, 8).end_cell())
+    return cell_dag(h.serialize())
+
+
+def shift_dag(nodes, off):
+    return [(k, b, tuple(r + off for r in refs)) for k, b, refs in nodes]
 
 
 # ----------------------------------------------------------------------------- generators
@@ -311,8 +373,21 @@ def rand_addr_tok(rng):
     return f'a:s:{wc}:{h}:{d}:{pfx}'
 
 
-def rand_typed_tok(rng, ncells):
+STRING_ALPHABET = 'abcXYZ 09é日𝄞'
+
+
+def rand_string_tok(rng):
+    n = rng.choice([1, 2, 5, 30])
+    s = ''.join(rng.choice(STRING_ALPHABET) for _ in range(n))
+    return 's:' + s.encode().hex()
+
+
+def rand_typed_tok(rng, ncells, dict_idx=None):
     r = rng.random()
+    if dict_idx is not None and r < 0.06:
+        return rng.choice(['d:-', f'd:{dict_idx}'])
+    if dict_idx is not None and r < 0.1:
+        return rand_string_tok(rng)
     if r < 0.2:
         return rand_uint_tok(rng)
     if r < 0.4:
